@@ -10,6 +10,7 @@ CONSTANTS
   Hints = {"-", "struct"}
   TMenu = {"ghosts"}
   MMenu = {"map", "ghost_d", "parent0", "literal", "pattern", "type_hint", "where_clause", "children", "child_parents", "bogus"}
+  FixedTraits = <<>>
   SpellAll = FALSE
   TCps = {"-", "A"}
   MCps = {"-", "A", "Z"}
